@@ -57,6 +57,8 @@ def mk_project(rng):
 
 def run(ctx):
     lean_check(ctx, "I18nVerif.Theorems.C20", "C20_")
+    lean_check(ctx, "I18nVerif.Theorems.C20Full", "C20_")
+    lean_check(ctx, "I18nVerif.Theorems.C20Pipeline", "C20_")
     rng = ctx.rng
     binb = cargo_build(ctx, "build_h")
     binp = build_parser(ctx)
